@@ -87,29 +87,39 @@ def proof_status(prop_id):
     if not ok:
         res["problems"].append("lake build failed: " + log[-1500:])
         return res
-    # forbidden tokens anywhere in the Lean sources (outside comments)
-    n_helpers = 0
-    for dp, dn, fn in os.walk(LEAN):
-        dn[:] = [d for d in dn if d != ".lake"]
-        for f in fn:
-            if f.endswith(".lean"):
-                with open(os.path.join(dp, f)) as fh:
-                    txt = strip_comments(fh.read())
-                n_helpers += len(re.findall(r"^\s*(?:theorem|lemma)\s", txt, flags=re.M))
-                for ln in txt.splitlines():
-                    if FORBIDDEN.search(ln):
-                        res["problems"].append(f"forbidden token in {f}: {ln.strip()[:120]}")
-    res["helper_theorems"] = n_helpers
     pfile = os.path.join(LEAN, "NucsProofs", "Properties", prop_id + ".lean")
     if not os.path.exists(pfile):
         res["problems"].append("no Properties file for " + prop_id)
         return res
-    with open(pfile) as fh:
-        txt = strip_comments(fh.read())
-    names = re.findall(r"^\s*theorem\s+([A-Za-z0-9_.']+)", txt, flags=re.M)
+    # the import closure of the property's file (project modules only)
+    closure, todo = {}, [f"NucsProofs.Properties.{prop_id}"]
+    while todo:
+        m = todo.pop()
+        if m in closure:
+            continue
+        path = os.path.join(LEAN, *m.split(".")) + ".lean"
+        if not os.path.exists(path):
+            continue
+        with open(path) as fh:
+            raw = fh.read()
+        closure[m] = strip_comments(raw)
+        for imp in re.findall(r"^import\s+((?:NucsModel|NucsProofs)[A-Za-z0-9_.]*)", raw, flags=re.M):
+            todo.append(imp)
+    names, n_helpers = [], 0
+    for m, txt in sorted(closure.items()):
+        for ln in txt.splitlines():
+            if FORBIDDEN.search(ln):
+                res["problems"].append(f"forbidden token in {m}: {ln.strip()[:120]}")
+        decls = re.findall(r"^\s*(?:private\s+)?(?:theorem|lemma)\s+([A-Za-z0-9_.']+)", txt, flags=re.M)
+        n_helpers += len(decls)
+        if m.startswith("NucsProofs"):
+            names += [d for d in decls if d.split(".")[-1].startswith(prop_id + "_")]
+    res["helper_theorems"] = n_helpers
+    res["modules"] = sorted(closure)
+    names = sorted(set(names))
     res["theorems"] = names
     if not names:
-        res["problems"].append("no theorem in Properties/" + prop_id + ".lean")
+        res["problems"].append(f"no theorem named {prop_id}_* in the import closure of Properties/{prop_id}.lean")
         return res
     # axiom audit (cached per source hash)
     os.makedirs(os.path.join(CACHE, "audit"), exist_ok=True)
@@ -124,6 +134,7 @@ def proof_status(prop_id):
             for n in names:
                 f.write(f"#print axioms {n}\n")
         rc, out, err = sh(["lake", "env", "lean", audit], cwd=LEAN, timeout=1800)
+        out = out + err
         if rc != 0:
             res["problems"].append("axiom audit failed: " + (out + err)[-800:])
             return res
